@@ -592,3 +592,204 @@ Definition step10 (q : q10) (a : action) : option q10 :=
 Definition init10 (cup : option N) (apps : list app) : q10 :=
   {| apps10 := map (fun a => (a_id a, Version.print (a_ver a))) apps;
      cup10 := match cup with Some _ => true | None => false end; ph10_ := X0; todo10 := [] |}.
+
+(* ------------------------------------------------------------------ C04 *)
+(* The event stream of every check names the path actually taken.  The facts (outcome of the last attempt, the
+   document, the installer's and the policy's answers) are read from the trace itself; the monitor then dictates
+   which state events may follow, in which order, and what the result must be. *)
+Definition doc_eq_dec : forall a b : doc, {a = b} + {a <> b}.
+Proof. repeat decide equality. Defined.
+Definition resps_eq_dec : forall a b : list app_response, {a = b} + {a <> b}.
+Proof. repeat decide equality. Defined.
+Definition state_eq_dec : forall a b : state, {a = b} + {a <> b}.
+Proof. repeat decide equality. Defined.
+Definition sched_eq_dec : forall a b : sched, {a = b} + {a <> b}.
+Proof. repeat decide equality. Defined.
+Definition pstate_eq_dec : forall a b : pstate, {a = b} + {a <> b}.
+Proof. repeat decide equality. Defined.
+
+Inductive xres := XRFail (parse : bool) | XRPlan | XROk (rs : list app_response).
+Inductive xe := XState (s : state) | XErrEv | XSched | XProto | XResult.
+Inductive ph4 :=
+| Y0 | YAtt (last : option http_outcome) | YDoc (d : doc) | YPlanned (d : doc) | YApproved (d : doc) | YInstalling (d : doc)
+| YNeedRN (rs : list app_response) | YExpect (l : list xe) (x : xres) (rb : bool) | YAfter (rb : bool) | YReboot.
+Record q4 := { cup4 : bool; ph4_ : ph4; pend4 : option sched; fin4 : option (sched * pstate) }.
+Definition q4_ph (q : q4) (p : ph4) : q4 := {| cup4 := cup4 q; ph4_ := p; pend4 := pend4 q; fin4 := fin4 q |}.
+
+(* the body of a response that may be acted upon: authenticated (when CUP is configured) and 2xx *)
+Definition usable (cup : bool) (o : option http_outcome) : option body :=
+  match o with
+  | Some (HResp st _ au b) => if (negb cup || au) && is_2xx st then Some b else None
+  | _ => None
+  end.
+Definition ds_of (d : doc) : option N := match d_daystart d with Some x => x | None => None end.
+Definition tail4 : list xe := [XSched; XProto; XResult].
+Definition res_ok (x : xres) (r : check_err + list app_response) : bool :=
+  match x, r with
+  | XRFail true, inl CEResponseParser => true
+  | XRFail false, inl (CEOmahaRequest _) => true
+  | XRPlan, inl CEInstallPlan => true
+  | XROk rs, inr rs' => if resps_eq_dec rs rs' then true else false
+  | _, _ => false
+  end.
+Definition failed_count (d : doc) (results : list ares) : nat :=
+  length (filter (fun r => match r with RFailed => true | _ => false end) (firstn (length (filter uc_ok (d_apps d))) results)).
+
+Definition step4_event (q : q4) (ev : sm_event) : option q4 :=
+  match ev with
+  | EvProgress _ => match ph4_ q with YNeedRN _ | YExpect _ _ _ => Some q | _ => None end
+  | EvProtocol ps =>
+      match ph4_ q with
+      | YExpect (XProto :: l) x rb =>
+          match pend4 q with
+          | Some s => Some {| cup4 := cup4 q; ph4_ := YExpect l x rb; pend4 := None; fin4 := Some (s, ps) |}
+          | None => None
+          end
+      | _ => Some q
+      end
+  | EvSchedule s =>
+      match ph4_ q with
+      | YExpect (XSched :: l) x rb => Some {| cup4 := cup4 q; ph4_ := YExpect l x rb; pend4 := Some s; fin4 := fin4 q |}
+      | Y0 | YReboot => Some q
+      | _ => None
+      end
+  | EvServerResponse d =>
+      match ph4_ q with
+      | YAtt last =>
+          match usable (cup4 q) last with
+          | Some (BDoc d') =>
+              if doc_eq_dec d d'
+              then Some (q4_ph q (if no_offers d
+                                  then YExpect (XState NoUpdateAvailable :: tail4) (XROk (make_app_responses d ANoUpdate)) false
+                                  else YDoc d))
+              else None
+          | _ => None
+          end
+      | _ => None
+      end
+  | EvInstallerError => match ph4_ q with YExpect (XErrEv :: l) x rb => Some (q4_ph q (YExpect l x rb)) | _ => None end
+  | EvResult r =>
+      match ph4_ q with
+      | YExpect [XResult] x rb => if res_ok x r then Some (q4_ph q (YAfter rb)) else None
+      | _ => None
+      end
+  | EvState s =>
+      match ph4_ q with
+      | Y0 => match s with CheckingForUpdates _ => Some (q4_ph q (YAtt None)) | _ => None end
+      | YAtt last =>
+          match s with
+          | ErrorCheckingForUpdate =>
+              match usable (cup4 q) last with
+              | None => Some (q4_ph q (YExpect tail4 (XRFail false) false))
+              | Some BBad => Some (q4_ph q (YExpect tail4 (XRFail true) false))
+              | Some (BDoc _) => None
+              end
+          | _ => None
+          end
+      | YApproved d => match s with InstallingUpdate => Some (q4_ph q (YInstalling d)) | _ => None end
+      | YExpect (XState s' :: l) x rb => if state_eq_dec s s' then Some (q4_ph q (YExpect l x rb)) else None
+      | YAfter rb =>
+          match s with
+          | WaitingForReboot => if rb then Some (q4_ph q YReboot) else None
+          | Idle => if rb then None else Some (q4_ph q Y0)
+          | _ => None
+          end
+      | YReboot => match s with Idle => Some (q4_ph q Y0) | _ => None end
+      | _ => None
+      end
+  end.
+
+Definition step4 (q : q4) (a : action) : option q4 :=
+  match a with
+  | AEvent ev => step4_event q ev
+  | AHttp _ o =>
+      Some {| cup4 := cup4 q; ph4_ := match ph4_ q with YAtt _ => YAtt (Some o) | p => p end; pend4 := pend4 q; fin4 := None |}
+  | APolicy (QNextTime _ s p) _ =>
+      match fin4 q with
+      | Some (s0, p0) => if sched_eq_dec s s0 then if pstate_eq_dec p p0
+                         then Some {| cup4 := cup4 q; ph4_ := ph4_ q; pend4 := pend4 q; fin4 := None |} else None else None
+      | None => Some q
+      end
+  | AInstaller (ICreatePlan _ _ _ _) (IPlan pl) =>
+      match ph4_ q with
+      | YDoc d => Some (q4_ph q (match pl with
+                                 | None => YExpect (XState InstallingUpdate :: XState InstallationError :: tail4) XRPlan false
+                                 | Some _ => YPlanned d end))
+      | _ => None
+      end
+  | APolicy (QCanStart _) (PUDecision dec) =>
+      match ph4_ q with
+      | YPlanned d =>
+          Some (q4_ph q (match dec with
+                         | UDeferred => YExpect (XState InstallationDeferredByPolicy :: tail4) (XROk (make_app_responses d ADeferredByPolicy)) false
+                         | UDenied => YExpect tail4 (XROk (make_app_responses d ADeniedByPolicy)) false
+                         | UOk => YApproved d end))
+      | _ => None
+      end
+  | AInstaller (IPerform _) (IPerformed pa) =>
+      match ph4_ q with
+      | YInstalling d =>
+          let rs := assign_results (d_apps d) (pa_results pa) (ds_of d) in
+          Some (q4_ph q (match failed_count d (pa_results pa) with
+                         | O => YNeedRN rs
+                         | S n => YExpect (repeat XErrEv (S n) ++ XState InstallationError :: tail4) (XROk rs) false
+                         end))
+      | _ => None
+      end
+  | APolicy (QRebootNeeded _) (PBool rn) =>
+      match ph4_ q with YNeedRN rs => Some (q4_ph q (YExpect tail4 (XROk rs) rn)) | _ => None end
+  | _ => Some q
+  end.
+
+Definition init4 (cup : option N) : q4 :=
+  {| cup4 := match cup with Some _ => true | None => false end; ph4_ := Y0; pend4 := None; fin4 := None |}.
+
+(* ------------------------------------------------------------------ C12 *)
+(* Before every wait: the policy's answer to the next-time question is announced as the schedule's next update time and
+   then exactly its timers are armed - the minimum wait first when there is one, then the time bound - with nothing in
+   between (control traffic aside).  A time-bound timer is never armed otherwise; every schedule announcement carries
+   the latest answer.  (Which timers must have fired before a check or ping starts is not visible in the trace: that
+   clause is the theorem about the select in Props/C12.v.) *)
+Definition timing_eq_dec : forall a b : timing, {a = b} + {a <> b}.
+Proof. repeat decide equality. Defined.
+Definition wait_eq_dec : forall a b : wait, {a = b} + {a <> b}.
+Proof. repeat decide equality. Defined.
+Inductive ob12 := ObSched (t : timing) | ObArm (w : wait).
+Record q12 := { todo12 : list ob12; next12 : option timing }.
+Definition timers_of (t : timing) : list ob12 :=
+  match t_min t with
+  | Some d => [ObArm (WFor d); ObArm (WUntil (t_time t))]
+  | None => [ObArm (WUntil (t_time t))]
+  end.
+Definition otiming_eqb (a b : option timing) : bool :=
+  match a, b with
+  | Some x, Some y => if timing_eq_dec x y then true else false
+  | None, None => true
+  | _, _ => false
+  end.
+Definition step12 (q : q12) (a : action) : option q12 :=
+  match a with
+  | ARequest _ _ | AReply _ _ => Some q
+  | APolicy (QNextTime _ _ _) (PTiming t) =>
+      match todo12 q with
+      | [] => Some {| todo12 := ObSched t :: timers_of t; next12 := Some t |}
+      | _ => None
+      end
+  | AEvent (EvSchedule s) =>
+      match todo12 q with
+      | ObSched t :: rest => if otiming_eqb (s_next s) (Some t) then Some {| todo12 := rest; next12 := next12 q |} else None
+      | [] => match next12 q with
+              | Some t => if otiming_eqb (s_next s) (Some t) then Some q else None
+              | None => Some q         (* before the first question: whatever was loaded *)
+              end
+      | _ => None
+      end
+  | ATimer w =>
+      match todo12 q with
+      | ObArm w' :: rest => if wait_eq_dec w w' then Some {| todo12 := rest; next12 := next12 q |} else None
+      | [] => match w with WFor _ => Some q | WUntil _ => None end
+      | _ => None
+      end
+  | _ => match todo12 q with [] => Some q | _ => None end
+  end.
+Definition init12 : q12 := {| todo12 := []; next12 := None |}.
